@@ -150,6 +150,8 @@ type SimConfig struct {
 	// KeepHeap: do not let unknown calls havoc anything (used by rules that
 	// only look at values, not at heap state).
 	NoHavoc bool
+	// MaxSteps bounds the total number of instructions simulated (default 20 million).
+	MaxSteps int
 	// MaxVisits: how often a block may be entered per activation (default 3:
 	// two concrete loop iterations, then one with widened loop variables).
 	MaxVisits int
@@ -162,6 +164,7 @@ type SimConfig struct {
 type Sim struct {
 	P        *Program
 	Cfg      SimConfig
+	Steps    int
 	Paths    int
 	Pruned   int
 	LoopCuts int
@@ -195,6 +198,9 @@ func (p *Program) Simulate(fn *ssa.Function, cfg SimConfig, onPath func(*PathRes
 	}
 	if cfg.Inline == nil {
 		cfg.Inline = inlineHelpersOf(fn)
+	}
+	if cfg.MaxSteps == 0 {
+		cfg.MaxSteps = 20_000_000
 	}
 	s := &Sim{P: p, Cfg: cfg, onPath: onPath}
 	st := &State{heap: map[string]*Term{}, heapLoc: map[string]*Term{}, epoch: map[string]int{}, fresh: map[string]bool{},
@@ -769,6 +775,10 @@ func (s *Sim) emit(st *State, fr *Frame, e *Event) *Event {
 
 func (s *Sim) simInstrs(fr *Frame, st *State, b *ssa.BasicBlock, from int, k cont) {
 	for i := from; i < len(b.Instrs); i++ {
+		s.Steps++
+		if s.Steps > s.Cfg.MaxSteps {
+			s.Overflow = true
+		}
 		if s.Overflow {
 			return
 		}
